@@ -124,6 +124,11 @@ type Knobs struct {
 	SnapCount  uint64 `json:"snap_count"`
 	CatchUpN   uint64 `json:"catch_up_n"`
 	SegmentKiB int    `json:"segment_kib"`
+	// HandlerGate: every connection handler stops between "raft has taken my
+	// proposal" and "I wait for the result" (proposed hook) until the simulator
+	// releases it as an event of its own: the apply loop may reach the hand-over
+	// of the result before the handler listens.
+	HandlerGate bool `json:"handler_gate,omitempty"`
 	// Nondet: the clients also issue random-choice and auto-id commands (nondet.go)
 	Nondet bool `json:"nondet,omitempty"`
 	// LargeValues: the clients' values are several hundred KB each (fault-free runs)
